@@ -141,3 +141,324 @@ def main : IO UInt32 := do
         if bad ≤ 200 then stdout.putStrLn e
   stdout.putStrLn s!"checked: F={nF} I={nI} P={nP}  mismatches={bad}"
   return (if bad == 0 then 0 else 1)
+
+/-
+  ORACLE GENERATOR (C++17).  Save as gen.cpp outside /verif, then:
+      g++ -std=c++17 -O1 -o gen gen.cpp
+      ./gen fmt   [seed] > fmt.txt      # F and I lines (320000 + 30019)
+      ./gen parse [seed] > parse.txt    # P lines (260247)
+      cd /verif/lean && lake env lean --run FloatFmtTest.lean < fmt.txt
+      cd /verif/lean && lake env lean --run FloatFmtTest.lean < parse.txt
+
+// Differential-test oracle generator for PseudoModel.FloatFmt
+#include <cstdio>
+#include <cstdlib>
+#include <cstring>
+#include <cstdint>
+#include <cmath>
+#include <cfloat>
+#include <cerrno>
+#include <climits>
+#include <string>
+#include <vector>
+#include <sstream>
+#include <iostream>
+
+static uint64_t rs = 0x9E3779B97F4A7C15ULL;
+static uint64_t rnd() { // splitmix64
+  uint64_t z = (rs += 0x9E3779B97F4A7C15ULL);
+  z = (z ^ (z >> 30)) * 0xBF58476D1CE4E5B9ULL;
+  z = (z ^ (z >> 27)) * 0x94D049BB133111EBULL;
+  return z ^ (z >> 31);
+}
+static uint64_t rndn(uint64_t n) { return rnd() % n; }
+
+static uint64_t bitsOf(double d) { uint64_t b; memcpy(&b, &d, 8); return b; }
+static double ofBits(uint64_t b) { double d; memcpy(&d, &b, 8); return d; }
+
+static std::vector<double> vals;
+static void add(double d) { vals.push_back(d); vals.push_back(-d); }
+static void addN(double d) { // with neighbours
+  add(d);
+  add(nextafter(d, INFINITY)); add(nextafter(d, -INFINITY));
+  add(nextafter(nextafter(d, INFINITY), INFINITY));
+  add(nextafter(nextafter(d, -INFINITY), -INFINITY));
+}
+
+static void genFmt() {
+  add(0.0); add(INFINITY); add(NAN); add(DBL_MAX); add(DBL_MIN); add(DBL_EPSILON);
+  vals.push_back(ofBits(0x7FF0000000000001ULL)); vals.push_back(ofBits(0xFFF8000000000123ULL));
+  vals.push_back(ofBits(0xFFFFFFFFFFFFFFFFULL));
+  addN(DBL_MAX); addN(DBL_MIN); addN(0.0);
+  double special[] = {99999.999995, 0.0001, 0.00009999999999, 1e10, 9999999999.5, 12345678901.0,
+    99999.99999, 999999.5, 9999995.0, 0.5, 1.5, 2.5, 0.25, 0.125, 1e-5, 9.9999999995e-5, 0.000099999999995,
+    9999999999.0, 99999999999.0, 1e9, 1e11, 123456.5, 1234567.5, 0.1, 0.2, 0.3, 1.0/3, 2.0/3, 1e22, 1e23, 1e21,
+    5e-324, 1e-323, 1e-310, 1e-320, 0.0000005, 0.0000015, 0.0000025, 0.00000049999999, 1e16, 1e17, 1e18, 123456789012345678.0,
+    9007199254740992.0, 9007199254740993.0, 4503599627370496.5, 1e300, 1e-300, 0.000001, 0.0000001, 99999.5, 100000.5,
+    9999999999.4999, 99999999995.0, 0.99999999995, 0.999999999949, 9.9999999995, 9.99999999949999};
+  for (double s : special) addN(s);
+  for (int i = 0; i <= 5000; i++) { add((double)i); add(i + 0.5); add(i * 0.25); }
+  for (int k = 0; k < 3000; k++) for (int j = 0; j <= 12; j++) {
+    if ((k * 13 + j) % 3) continue;
+    add((double)k / pow(10.0, j));
+  }
+  for (int e = -1074; e <= 1023; e++) addN(ldexp(1.0, e));
+  for (int e = -330; e <= 308; e++) { char buf[32]; snprintf(buf, sizeof buf, "1e%d", e); addN(strtod(buf, nullptr)); }
+  for (int e = -20; e <= 25; e++) for (int m = 1; m < 100; m += 1) {
+    char buf[32]; snprintf(buf, sizeof buf, "%d.5e%d", m, e); add(strtod(buf, nullptr));
+    snprintf(buf, sizeof buf, "%de%d", m, e); add(strtod(buf, nullptr));
+  }
+  // values around rounding boundaries for %.10g and %f
+  for (int i = 0; i < 20000; i++) {
+    int e = (int)rndn(30) - 12;
+    uint64_t m = rndn(100000000000ULL);
+    char buf[64]; snprintf(buf, sizeof buf, "%llu5e%d", (unsigned long long)m, e - 11);
+    double d = strtod(buf, nullptr);
+    add(d); if (i % 4 == 0) { add(nextafter(d, INFINITY)); add(nextafter(d, 0)); }
+  }
+  // random denormals
+  for (int i = 0; i < 5000; i++) add(ofBits(rnd() >> (12 + rndn(52))));
+  // random bit patterns
+  while (vals.size() < 260000) vals.push_back(ofBits(rnd()));
+  // random with moderate exponents
+  for (int i = 0; i < 60000; i++) {
+    uint64_t b = rnd();
+    uint64_t ex = 1023 - 40 + rndn(110);
+    b = (b & 0x800FFFFFFFFFFFFFULL) | (ex << 52);
+    vals.push_back(ofBits(b));
+  }
+  for (double d : vals) {
+    printf("F\t%016llx\t%.10g\t%f\t%.17g\t%.6g\t%.1g\t%.15g\t%.3g\n", (unsigned long long)bitsOf(d), d, d, d, d, d, d, d);
+  }
+  // (double)long
+  std::vector<long> ls = {0, 1, -1, LONG_MAX, LONG_MIN, LONG_MAX - 1, LONG_MIN + 1, 9007199254740993L, -9007199254740993L,
+    9007199254740992L, 9007199254740991L, 9007199254740995L, 9007199254740994L, (1L << 62) + 1, (1L<<62) + 512, (1L<<62)+513, (1L<<62)+511, (1L<<62)+256, (1L<<62)+768};
+  for (int i = 0; i < 20000; i++) { long v = (long)rnd(); ls.push_back(v >> rndn(64)); }
+  for (int i = 0; i < 5000; i++) { int sh = 54 + rndn(9); long v = (1L << sh) + ((long)rndn(4096) - 2048) * (1L << (sh - 54)) ; ls.push_back(v); ls.push_back(-v); }
+  for (long v : ls) { double d = (double)v; printf("I\t%ld\t%016llx\n", v, (unsigned long long)bitsOf(d)); }
+}
+
+// ---------------------------------------------------------------------------
+
+static std::vector<std::string> ins;
+
+static std::string hexEnc(const std::string& s) {
+  static const char* H = "0123456789abcdef";
+  std::string r;
+  for (unsigned char c : s) { r += H[c >> 4]; r += H[c & 15]; }
+  return r.empty() ? std::string("-") : r;
+}
+
+template <class T> static void istreamTest(const std::string& s, bool& fail, T& v, long& pos) {
+  std::istringstream in(s);
+  v = 0;
+  in >> v;
+  fail = in.fail();
+  in.clear();
+  pos = (long)in.rdbuf()->pubseekoff(0, std::ios_base::cur, std::ios_base::in);
+}
+
+static std::string randDigits(int n) { std::string s; for (int i = 0; i < n; i++) s += (char)('0' + rndn(10)); return s; }
+
+static const char* garbage0(int k) { const char* g[] = {"", "", "x", ")"}; return g[k]; }
+static void genParse() {
+  const char* lits[] = {"", " ", "0", "-0", "+0", "0x", "0x1", "0X1P3", "0x.8", "0x.", "0x.p1", "0x1.", "0x1.p", "0x1.p+", "0x1.p+1", "1e", "1e+", "1e-", "1e+5", "1E5", ".", "+.", "-.", "1.", ".5", "-.5e-3",
+    "1e99999999999999999999", "1e-99999999999999999999", "0e99999999999999999999", "0.0e99999999999999999999", "-1e99999999999999999999", "-1e-99999999999999999999",
+    "0x1p99999999999999999999", "0x1p-99999999999999999999", "0x0p99999999999999999999",
+    "1.7976931348623157e308", "1.7976931348623158e308", "1.7976931348623159e308", "1.797693134862315807e308", "1.797693134862315808e308",
+    "2.2250738585072011e-308", "2.2250738585072012e-308", "2.2250738585072014e-308", "2.2250738585072013e-308", "2.225073858507201383e-308", "2.2250738585072013e-308",
+    "4.9406564584124654e-324", "2.4703282292062327e-324", "2.4703282292062328e-324", "2.4703282292062329e-324", "1e-400", "1e400", "-1e400", "-1e-400", "1e-323", "1e-324", "3e-324", "7e-324", "7.4e-324", "7.5e-324",
+    "inf", "INF", "Infinity", "infinit", "infinityx", "-inf", "+INFINITY", "nan", "NaN", "-nan", "nan(", "nan()", "nan(123)", "nan(0x123)", "nan(abc)", "-nan(0x7ffffffffffff)", "nan(0xfffffffffffffffff)",
+    "nan(017)", "nan(08)", "nan(0x)", "nan(0xg)", "nan(1_2)", "nan(_)", "nan(99999999999999999999999)", "nan(12", "nan(12 )", "nan (12)", "NAN(0X1F)", "nan(0)", "nan(00)", "nan(4503599627370496)", "nan(2251799813685248)", "nan(2251799813685247)",
+    "i", "in", "n", "na", "+i", "-n", "  12", "\t\n\v\f\r 12", "12x", "1e+22 REAL", "1 2", "--1", "+-1", "-+1", "+ 1", "- 1", "1..2", "1.2.3", "1e5e5", "1e5.5", "1.5e", "1.5e+x", "0x1p", "0x1p+", "0x1p-x", "0xg", "0x1g", "00x1", "0x0x1",
+    "0x1.8p-1075", "0x1p-1075", "0x1.0000000000001p-1075", "0x1p-1074", "0x3p-1075", "0x1p-1076", "0x1.fffffffffffffp-1023", "0x1.ffffffffffffep-1023", "0x1.fffffffffffff8p-1023", "0x1.fffffffffffff4p-1023", "0x0.fffffffffffff8p-1022", "0x0.fffffffffffffcp-1022", "0x0.fffffffffffffbp-1022",
+    "0x1.fffffffffffffp1023", "0x1.fffffffffffff8p1023", "0x1.fffffffffffff7p1023", "0x1p1024", "0x.0000000000000000000000001p1124", "0x1.00000000000008p0", "0x1.00000000000018p0", "0x1.000000000000080000000001p0",
+    "9223372036854775807", "9223372036854775808", "-9223372036854775808", "-9223372036854775809", "18446744073709551615", "18446744073709551616", "-18446744073709551615", "-18446744073709551616", "-18446744073709551617",
+    "4294967295", "4294967296", "-4294967295", "-4294967296", "-4294967297", "-1", "-0", "+5", "0005", "-0005", "00", "0x10", "99999999999999999999999999", "-99999999999999999999999999", "+", "-", " +", " -5x", "2147483647", "2147483648", "-2147483648", "-2147483649",
+    "0e", "0e+", "00.5", "000", "000e5", "0.e5", ".e5", "e5", "E", ".0", "0.", "0.0.", "00e", "1e0005", "1e-0005", "1E+0", "5e-324x", "0.1e1e", "1ee", "1e+e", "1e+-1", "1e 1", "1 e1", ".5.", "5.e", "5.e1", "5.e+", "5.E-1q",
+  };
+  for (const char* l : lits) ins.push_back(l);
+  ins.push_back(std::string("1\0002", 3));
+  ins.push_back(std::string("\000", 1));
+  ins.push_back("\xa0" "1");
+  ins.push_back("1\xff");
+  const char alpha[] = "0123456789.+-eExXpPinfatyINFNAabcdef ()_\t\n";
+  const int na = sizeof(alpha) - 1;
+  for (int i = 0; i < 60000; i++) {
+    int len = rndn(13);
+    std::string s;
+    for (int j = 0; j < len; j++) s += alpha[rndn(na)];
+    ins.push_back(s);
+  }
+  {
+    const char* more[] = {"nan(99999999999999999999999_)", "nan(0xffffffffffffffffffg)", "nan(18446744073709551615)", "nan(18446744073709551616)",
+      "nan(01777777777777777777777)", "nan(02000000000000000000000)", "nan(0777777777777777777777777)", "nan(9999999999999999999999a)", "nan(0x10000000000000000)", "nan(0xffffffffffffffff)",
+      "nan(0X)", "nan(0Xz)", "nan(0_)", "nan(09)", "nan(0b1)", "nan(0B11)", "-nan(99999999999999999999)", "nan(18446744073709551615z)", "nan(18446744073709551616z)", "nan(0000000000000000000000000000017)",
+      "nan(0x00000000000000000000000000001f)", "nan(ffff)", "nan(1e5)", "nan(12345678901234567890)", "-.5", "+.e1", ".e", "-.e", "+.5e+", "0000000000000000000000000000000000000001", "-00000.00000e-00000", "0000e0000",
+      "1e308", "1e309", "-1e309", "1.7976931348623158e308x", "1e-325", "1e-324 ", "0.00000000000000000000001e+331", "\x85" "1", " \x0b\x0c1"};
+    for (const char* l : more) ins.push_back(l);
+    const char a2[] = "0123456789.eE+- ";
+    for (int i = 0; i < 50000; i++) { int len = 1 + rndn(10); std::string s; for (int j = 0; j < len; j++) s += a2[rndn(16)]; ins.push_back(s); }
+    const char a3[] = "0123456789abcdefxX_7700189AF";
+    for (int i = 0; i < 10000; i++) { int len = rndn(26); std::string s = rndn(2) ? "nan(" : "-NaN("; int mode = rndn(4);
+      if (mode == 0) s += "0x"; if (mode == 1) s += "0";
+      for (int j = 0; j < len; j++) s += mode == 3 ? a3[rndn(28)] : mode == 2 ? (char)('0' + rndn(10)) : mode == 1 ? (char)('0' + rndn(rndn(20) ? 8 : 10)) : "0123456789abcdefABCDEF"[rndn(rndn(30) ? 22 : 16)];
+      if (rndn(10)) s += ")"; s += garbage0(rndn(4)); ins.push_back(s); }
+  }
+  // token soup: better grammar coverage
+  const char* toks[] = {"0", "1", "9", "12", "007", ".", "e", "E", "+", "-", "0x", "0X", "p", "P", "inf", "INF", "inity", "infinity", "nan", "NaN", "(", ")", "_", "a", "f", "F", " ", "\t", "\n", "x", "e+", "e-", "p+", "p-", "308", "324", "1074", "1023", "00", "g", "nan(", "0x1", ".5", "5.", "\v", "\f", "\r"};
+  const int nt = sizeof(toks) / sizeof(toks[0]);
+  for (int i = 0; i < 60000; i++) {
+    int len = 1 + rndn(6);
+    std::string s;
+    for (int j = 0; j < len; j++) s += toks[rndn(nt)];
+    ins.push_back(s);
+  }
+  // renderings of random doubles
+  const char* garbage[] = {"", "", "", "x", " REAL", "e", "e+", ".", ".5", "p1", "E5", " ", "\n", "-", "+1", "inf", ",", "12x"};
+  const int ng = sizeof(garbage) / sizeof(garbage[0]);
+  for (int i = 0; i < 30000; i++) {
+    uint64_t b = rnd();
+    if (i % 3 == 0) { uint64_t ex = 1023 - 60 + rndn(130); b = (b & 0x800FFFFFFFFFFFFFULL) | (ex << 52); }
+    if (i % 50 == 1) b &= 0x800FFFFFFFFFFFFFULL; // denormal
+    double d = ofBits(b);
+    char buf[512];
+    const char* fmts[] = {"%.17g", "%g", "%f", "%.10g", "%a", "%.16g", "%.15g", "%e", "%.20e", "%A", "%.3a"};
+    int f = rndn(11);
+    snprintf(buf, sizeof buf, fmts[f], d);
+    std::string s = buf;
+    if (rndn(8) == 0) s = std::string(rndn(3) + 1, " \t\n"[rndn(3)]) + s;
+    if (rndn(10) == 0 && s[0] != '-') s = "+" + s;
+    s += garbage[rndn(ng)];
+    ins.push_back(s);
+  }
+  // long digit strings
+  for (int i = 0; i < 6000; i++) {
+    int n = 20 + rndn(381);
+    std::string s = randDigits(n);
+    int p = rndn(n + 1);
+    if (rndn(5)) s.insert(p, ".");
+    if (rndn(4) == 0) s = "-" + s;
+    if (rndn(3) == 0) { char e[32]; snprintf(e, sizeof e, "e%d", (int)rndn(800) - 400); s += e; }
+    if (rndn(6) == 0) s += garbage[rndn(ng)];
+    ins.push_back(s);
+  }
+  // leading zeros after the point with compensating exponent
+  for (int i = 0; i < 1500; i++) {
+    int z = rndn(400);
+    std::string s = "0." + std::string(z, '0') + randDigits(1 + rndn(25));
+    char e[32]; snprintf(e, sizeof e, "e%d", z + (int)rndn(700) - 350); s += e;
+    ins.push_back(s);
+    std::string t = randDigits(1 + rndn(20)) + std::string(z, '0');
+    snprintf(e, sizeof e, "e%d", -z + (int)rndn(700) - 350); t += e;
+    ins.push_back(t);
+  }
+  // near overflow / underflow
+  for (int i = 0; i < 4000; i++) {
+    char buf[64];
+    int k = rndn(6);
+    if (k == 0) snprintf(buf, sizeof buf, "1.79769313486231%03de308", (int)rndn(1000));
+    else if (k == 1) snprintf(buf, sizeof buf, "2.22507385850720%03de-308", (int)rndn(1000));
+    else if (k == 2) snprintf(buf, sizeof buf, "%d.%05de-324", (int)rndn(30), (int)rndn(100000));
+    else if (k == 3) snprintf(buf, sizeof buf, "%d.%05de-%d", (int)rndn(10), (int)rndn(100000), 300 + (int)rndn(30));
+    else if (k == 4) snprintf(buf, sizeof buf, "%d.%05de%d", (int)rndn(10), (int)rndn(100000), 300 + (int)rndn(12));
+    else snprintf(buf, sizeof buf, "2.2250738585072%05de-308", (int)rndn(100000));
+    ins.push_back(buf);
+  }
+  // exact midpoints between adjacent doubles (and perturbations)
+  for (int i = 0; i < 3000; i++) {
+    uint64_t b = rnd() & 0x7FFFFFFFFFFFFFFFULL;
+    if (i % 3 == 0) { uint64_t ex = 1023 - 60 + rndn(130); b = (b & 0x000FFFFFFFFFFFFFULL) | (ex << 52); }
+    if (i % 7 == 1) b &= 0x000FFFFFFFFFFFFFULL;
+    if (i % 7 == 2) b = (b & 0x000FFFFFFFFFFFFFULL) | ((uint64_t)rndn(3) << 52);
+    if (i % 97 == 5) b = 0x000FFFFFFFFFFFFFULL;
+    if (i % 97 == 6) b = 0;
+    if (i % 97 == 7) b = 0x7FEFFFFFFFFFFFFFULL;
+    double d = ofBits(b);
+    if (!std::isfinite(d)) continue;
+    double d2 = ofBits(b + 1);
+    long double mid;
+    if (std::isinf(d2)) mid = (long double)d + ((long double)d - (long double)ofBits(b - 1)) / 2;
+    else mid = ((long double)d + (long double)d2) / 2;
+    static char buf[2000];
+    snprintf(buf, sizeof buf, "%.1200Lg", mid);
+    std::string s = buf;
+    if (s.find('e') != std::string::npos) {
+      // move the exponent out so we can append digits to the mantissa
+      size_t ep = s.find('e');
+      std::string m = s.substr(0, ep), e = s.substr(ep);
+      if (m.find('.') == std::string::npos) m += ".";
+      ins.push_back(m + e);
+      ins.push_back(m + "000000000000000000001" + e);
+      // decrement: replace last nonzero digit d by d-1 followed by 9
+      std::string m2 = m; size_t q = m2.find_last_of("123456789");
+      if (q != std::string::npos) { m2[q]--; m2.insert(q + 1, "9"); for (size_t j = q + 2; j < m2.size(); j++) if (m2[j] == '0') m2[j] = '9'; ins.push_back(m2 + e); }
+    } else {
+      if (s.find('.') == std::string::npos) s += ".";
+      ins.push_back(s);
+      ins.push_back(s + "00000000000000000001");
+      std::string m2 = s; size_t q = m2.find_last_of("123456789");
+      if (q != std::string::npos) { m2[q]--; m2.insert(q + 1, "9"); for (size_t j = q + 2; j < m2.size(); j++) if (m2[j] == '0') m2[j] = '9'; ins.push_back(m2); }
+    }
+  }
+  // random hex floats
+  for (int i = 0; i < 8000; i++) {
+    std::string s = rndn(2) ? "0x" : "0X";
+    int ni = rndn(4), nf = rndn(20);
+    if (ni + nf == 0) ni = 1;
+    const char* hd = "0123456789abcdefABCDEF";
+    for (int j = 0; j < ni; j++) s += hd[rndn(22)];
+    if (nf || rndn(2)) s += ".";
+    for (int j = 0; j < nf; j++) s += (rndn(3) == 0 ? (rndn(2) ? '0' : (rndn(2) ? '8' : 'f')) : hd[rndn(22)]);
+    if (rndn(5)) { char e[32]; int r = rndn(4); int ex = r == 0 ? (int)rndn(40) - 20 : r == 1 ? -1000 - (int)rndn(150) : r == 2 ? 1000 + (int)rndn(40) : (int)rndn(2400) - 1200;
+      snprintf(e, sizeof e, "%c%s%d", rndn(2) ? 'p' : 'P', (ex >= 0 && rndn(2)) ? "+" : "", ex); s += e; }
+    if (rndn(4) == 0) s = "-" + s;
+    if (rndn(6) == 0) s += garbage[rndn(ng)];
+    ins.push_back(s);
+  }
+  // integers
+  for (int i = 0; i < 20000; i++) {
+    std::string s;
+    if (rndn(6) == 0) s += std::string(rndn(3) + 1, " \t\n\r"[rndn(4)]);
+    int sg = rndn(4); if (sg == 0) s += "-"; else if (sg == 1) s += "+";
+    if (rndn(8) == 0) s += std::string(rndn(4) + 1, '0');
+    int k = rndn(5);
+    if (k == 0) s += randDigits(1 + rndn(25));
+    else if (k == 1) { char b[32]; snprintf(b, sizeof b, "%llu", (unsigned long long)(9223372036854775807ULL - 5 + rndn(11))); s += b; }
+    else if (k == 2) { unsigned __int128 v = (unsigned __int128)18446744073709551615ULL - 5 + rndn(11); char b[48]; int p = 47; b[p] = 0; while (v) { b[--p] = '0' + (int)(v % 10); v /= 10; } s += (b + p); }
+    else if (k == 3) { char b[32]; snprintf(b, sizeof b, "%llu", (unsigned long long)(4294967295ULL - 5 + rndn(11))); s += b; }
+    else { char b[32]; snprintf(b, sizeof b, "%llu", (unsigned long long)(rnd() >> rndn(64))); s += b; }
+    s += garbage[rndn(ng)];
+    ins.push_back(s);
+  }
+
+  for (const std::string& s : ins) {
+    // strtod: NUL-terminated semantics -> cut at first NUL for the C functions
+    const char* cs = s.c_str();
+    char* end;
+    errno = 0;
+    double d = strtod(cs, &end);
+    int er = errno == ERANGE;
+    long dn = end - cs;
+    errno = 0;
+    long l = strtol(cs, &end, 10);
+    int ler = errno == ERANGE;
+    long ln = end - cs;
+    bool f1, f2, f3, f4; double v1; long v2; unsigned long v3; unsigned int v4; long p1, p2, p3, p4;
+    istreamTest(s, f1, v1, p1);
+    istreamTest(s, f2, v2, p2);
+    istreamTest(s, f3, v3, p3);
+    istreamTest(s, f4, v4, p4);
+    printf("P\t%s\t%016llx\t%ld\t%d\t%ld\t%ld\t%d\t%d\t%016llx\t%ld\t%d\t%ld\t%ld\t%d\t%lu\t%ld\t%d\t%u\t%ld\n",
+      hexEnc(s).c_str(), (unsigned long long)bitsOf(d), dn, er, l, ln, ler,
+      (int)f1, (unsigned long long)bitsOf(v1), p1, (int)f2, v2, p2, (int)f3, v3, p3, (int)f4, v4, p4);
+  }
+}
+
+int main(int argc, char** argv) {
+  if (argc > 2) rs = strtoull(argv[2], nullptr, 0);
+  if (argc > 1 && !strcmp(argv[1], "fmt")) genFmt();
+  else genParse();
+  return 0;
+}
+-/
